@@ -64,7 +64,7 @@ def goals_for(env, kind, m, x, y, signed, plus, neg, w1, w2):
         return [MinMaxGoal([x, y], signed)]
     if base == "maxmin":
         return [MaxMinGoal([x, y], signed)]
-    if base == "maxsmt":
+    if base in ("maxsmt", "maxsmt-inc"):
         g = MaxSMTGoal(real_weights=False)
         one = m.Int(1)
         if x.symbol_type().is_int_type():
@@ -74,7 +74,14 @@ def goals_for(env, kind, m, x, y, signed, plus, neg, w1, w2):
             c1, c2, c3 = m.BVULE(x, m.BV(1, wd)), m.BVULE(m.BV(1, wd), y), m.Equals(x, y)
         g.add_soft_clause(c1, m.Int(w1))
         g.add_soft_clause(c2, m.Int(w2))
-        g.add_soft_clause(c3, m.Int(1))
+        g.verif_soft = [(c1, w1), (c2, w2)]          # the check's own record of the soft clauses (independent of g.term())
+        g.verif_later = []
+        if base == "maxsmt":
+            g.add_soft_clause(c3, m.Int(1))
+            g.verif_soft.append((c3, 1))
+        else:
+            # the same goal object is optimised, extended by one more soft clause, and optimised again
+            g.verif_later = [(c3, 2)]
         return [g]
     if base == "two":        # two objectives for boxed / lexicographic / pareto
         return [MinimizationGoal(x, signed), MaximizationGoal(y, signed)]
@@ -106,12 +113,12 @@ def opt_body(lo, hi, e, ylo, w1, w2, last, twin):
     isint = kind.startswith("int")
     vmin, vmax = (int_dom if isint else ((-(2 ** (w - 1)), 2 ** (w - 1) - 1) if "signed" in kind else (0, 2 ** w - 1)))
     base = kind.split("/")[1]
-    uses_y = base in ("min-x+y", "max-x+y", "minmax", "maxmin", "maxsmt", "two", "two-same", "two-sum")
+    uses_y = base in ("min-x+y", "max-x+y", "minmax", "maxmin", "maxsmt", "maxsmt-inc", "two", "two-same", "two-sum")
     clo, chi = decode(lo, vmin, vmax), decode(hi, vmin, vmax)
-    ce = decode(e, vmin, vmax) if base != "maxsmt" else vmax
+    ce = decode(e, vmin, vmax) if not base.startswith("maxsmt") else vmax
     # only the constants the instance depends on are symbolic; the others are fixed (no forking on them)
     cy = decode(ylo, vmin, vmax) if uses_y else vmin
-    c1, c2 = (decode(w1, 1, 3), decode(w2, 1, 3)) if base == "maxsmt" else (1, 1)
+    c1, c2 = (decode(w1, 1, 3), decode(w2, 1, 3)) if base.startswith("maxsmt") else (1, 1)
     if None in (clo, chi, ce, cy, c1, c2):
         return True
     pick_last = True if last else False
@@ -146,6 +153,8 @@ def opt_body(lo, hi, e, ylo, w1, w2, last, twin):
                 feas.append(it)
 
         def gval(g, it):
+            if g.is_maxsmt_goal():
+                return sum(wt for cl, wt in g.verif_soft if refeval.evaluate(cl, it))
             return value_of(g.term(), it, g.signed and not g.is_maxsmt_goal(), wbits)
 
         def better(g, a, b):        # a strictly better than b
@@ -166,20 +175,25 @@ def opt_body(lo, hi, e, ylo, w1, w2, last, twin):
             return node.constant_value()
         if mode == "single":
             g = goals[0]
-            res = solver.optimize(g, strategy=strategy)
-            if not feas:
-                ok = res is None
-            elif res is None:
-                ok = False
-            else:
-                model, cost = res
-                sat, it = model_ok(model)
-                best = None
-                for f in feas:
-                    v = gval(g, f)
-                    if best is None or better(g, v, best):
-                        best = v
-                ok = sat and as_num(cost, g) == best and gval(g, it) == best
+            stages = [None] + list(getattr(g, "verif_later", []))
+            for extra in stages:
+                if extra is not None:
+                    g.add_soft_clause(extra[0], m.Int(extra[1]))
+                    g.verif_soft.append(extra)
+                res = solver.optimize(g, strategy=strategy)
+                if not feas:
+                    ok = ok and res is None
+                elif res is None:
+                    ok = False
+                else:
+                    model, cost = res
+                    sat, it = model_ok(model)
+                    best = None
+                    for f in feas:
+                        v = gval(g, f)
+                        if best is None or better(g, v, best):
+                            best = v
+                    ok = ok and sat and as_num(cost, g) == best and gval(g, it) == best
         elif mode == "boxed":
             res = solver.boxed_optimize(goals, strategy=strategy)
             if not feas:
